@@ -60,6 +60,43 @@ fn class_probes(e: &str) -> Vec<String> {
     probes.into_iter().map(|p| format!("{head}{p}{tail}")).collect()
 }
 
+/// A name from the language of a parsed glob: wildcards and sets are filled
+/// from a small alphabet that contains multi-byte characters (a '?' stands for
+/// one character, not one byte).
+fn sample_glob(r: &mut Rng, toks: &[opat::GTok]) -> String {
+    const ANY: [char; 12] = ['a', 'b', 'q', 'Z', '0', '5', '-', '.', '\u{e9}', '\u{20ac}', 'x', '\u{1f600}'];
+    let mut s = String::new();
+    for t in toks {
+        match t {
+            opat::GTok::Lit(c) => s.push(*c),
+            opat::GTok::Any => s.push(*r.pick(&ANY)),
+            opat::GTok::Star => {
+                for _ in 0..r.below(4) {
+                    s.push(*r.pick(&ANY));
+                }
+            }
+            opat::GTok::Set { neg, items } => {
+                if *neg {
+                    let mut c = '#';
+                    for _ in 0..8 {
+                        let k = *r.pick(&ANY);
+                        if !items.iter().any(|(a, b)| *a <= k && k <= *b) {
+                            c = k;
+                            break;
+                        }
+                    }
+                    s.push(c);
+                } else {
+                    let (a, b) = *r.pick(items);
+                    let span = (b as u32 - a as u32) as usize;
+                    s.push(char::from_u32(a as u32 + r.below(span + 1) as u32).unwrap_or(a));
+                }
+            }
+        }
+    }
+    s
+}
+
 fn gen_seq(r: &mut Rng, depth: usize, out: &mut String, groups: &mut usize, maxdepth: &mut usize, cur: usize) {
     let items = r.range(1, 3);
     for _ in 0..items {
@@ -386,7 +423,7 @@ pub fn run(cx: &mut Cx) {
                 if !e.contains('<') && !e.contains('>') {
                     if let opat::GlobParse::Ok(toks) = opat::parse_glob(e) {
                         for _ in 0..2 {
-                            names.push(opat::sample_glob(&mut r, &toks));
+                            names.push(sample_glob(&mut r, &toks));
                             lang_names += 1;
                         }
                     }
